@@ -331,12 +331,14 @@ def holds_all(state, atoms) -> bool:
 class Facts:
     """Runs the must-facts analysis on a CFG."""
 
-    def __init__(self, cfg: CFG, writes_of=None, start: Node = None):
+    def __init__(self, cfg: CFG, writes_of=None, start: Node = None,
+                 recv_writes=None):
         """writes_of(call_node) -> set of self-attribute names the (non
         inlined) callee may assign on the *same* receiver, or None if unknown
         (then every self.* atom is killed)."""
         self.cfg = cfg
         self.writes_of = writes_of
+        self.recv_writes = recv_writes
         self.IN = dataflow.forward(cfg, frozenset(), self._transfer,
                                    lambda a, b: a & b, start=start)
 
@@ -439,6 +441,16 @@ class Facts:
                 empty = not (value.elts if not isinstance(value, ast.Dict)
                              else value.keys)
                 add = [(not empty, p), (False, p + ' is None')]
+            elif isinstance(value, ast.Call) and \
+                    isinstance(value.func, ast.Attribute) and \
+                    value.func.attr in ('decode', 'encode', 'upper',
+                                        'lower') and \
+                    path_of(value.func.value, frame) is not None:
+                # same emptiness as the source string
+                src = path_of(value.func.value, frame)
+                add = [(pp, kk.replace(src, p) if src != p else kk)
+                       for pp, kk in st
+                       if kk in (src, src + ' is None')]
             elif isinstance(value, ast.Call):
                 add = [(False, p + ' is None')] if _is_ctor_like(value) \
                     else []
@@ -518,7 +530,12 @@ class Facts:
                             written.add(rp + '.' + a)
                 else:
                     meth = e.func.attr
-                    if meth not in _PURE_METHODS:
+                    ws = self.recv_writes(n) if self.recv_writes else None
+                    if ws is not None:
+                        for a in ws:
+                            written.add(rp + '.' + a)
+                            written.add(rp + '.' + a.lstrip('_'))
+                    elif meth not in _PURE_METHODS:
                         under.add(rp)
                         if meth in _MUTATORS:
                             written.add(rp)
